@@ -105,6 +105,9 @@ static bool node_key_eq(const struct node_in *a, const struct node_in *b) {
 }
 
 /* Build an arbitrary valid per-interface record (the inductive pre-state) and register it. */
+#ifdef VERIF_CBMC
+lltd_iface_state nondet_iface_state(void);
+#endif
 static lltd_iface_state *build_state(void *ctx, const struct st_in *s) {
     V_ASSUME(s->known <= 1 && s->n <= K && s->icon_cached <= 1 && s->icon_size <= ICON_MAX);
     for (int a = 0; a < K; a++) {
@@ -113,7 +116,14 @@ static lltd_iface_state *build_state(void *ctx, const struct st_in *s) {
             if (a < s->n && b < s->n) V_ASSUME(!node_key_eq(&s->node[a], &s->node[b]));
     }
     lltd_iface_state *st = (lltd_iface_state *)v_alloc(sizeof(*st));
-    memset(st, 0, sizeof(*st));
+    /* every field this builder does not know about (one added by a later change to the repository) starts arbitrary:
+     * it stands for whatever earlier frames may have left there; all known fields are set explicitly below */
+#ifdef VERIF_CBMC
+    { lltd_iface_state any = nondet_iface_state(); *st = any; }
+#else
+    memset(st, 0x5A, sizeof(*st));
+#endif
+    st->see_list = 0; st->see_list_count = 0; st->small_icon = 0; st->small_icon_size = 0;
     st->iface_ctx = ctx;
     st->next = g_iface_states;
     g_iface_states = st;
